@@ -8,7 +8,6 @@ import (
 	"path/filepath"
 	"strconv"
 
-	"github.com/zenon-network/go-zenon/chain/nom"
 	"github.com/zenon-network/go-zenon/verifier"
 )
 
@@ -208,12 +207,7 @@ func init() {
 		}
 		f.strList("vmApplySendStages", callsInOrder(fd, map[string]bool{"GetEmbeddedMethod": true, "ValidateSendBlock": true, "enoughFunds": true, "SubBalance": true}))
 
-		f.raw("-- chain/nom/account_block.go\n")
-		f.nat("BlockTypeGenesisReceive", nom.BlockTypeGenesisReceive)
-		f.nat("BlockTypeUserSend", nom.BlockTypeUserSend)
-		f.nat("BlockTypeUserReceive", nom.BlockTypeUserReceive)
-		f.nat("BlockTypeContractSend", nom.BlockTypeContractSend)
-		f.nat("BlockTypeContractReceive", nom.BlockTypeContractReceive)
+		// the block type constants are generated into Gen/Pool.lean (f_pool.go)
 		return f, nil
 	})
 }
